@@ -400,6 +400,33 @@ theorem select_misaligned_raises :
       [false, false] = none := by
   decide
 
+/-! ### `BaseMergedUnitExtractor` (currency) -/
+
+/-- every result of `BaseMergedUnitExtractor.extract` (currency) is the slice of the source it claims, provided the unit
+extractor's and the number extractor's results are (for any connector-regex behaviour `gapOK`) -/
+theorem merged_result_text_is_slice (sp : Nat → Bool) (src : Str) (gapOK : Nat → Nat → Bool) (ers nums : List Item)
+    (he : ∀ it ∈ ers, it.text = slice src it.start (it.start + it.len))
+    (hn : ∀ it ∈ nums, it.text = slice src it.start (it.start + it.len))
+    (out : List Group) (h : mergedCompoundUnits sp src gapOK ers nums = some out) :
+    ∀ g ∈ out, g.text = slice src g.start (g.start + g.len) := by
+  unfold mergedCompoundUnits at h
+  simp only [] at h
+  cases hb : buildGroups src ((mergePureNumber sp src gapOK ers nums).zip
+      (groupsFrom sp src gapOK 0 (mergePureNumber sp src gapOK ers nums))) none [] with
+  | none => rw [hb] at h; simp at h
+  | some res =>
+    rw [hb] at h
+    simp only [Option.map_some, Option.some.injEq] at h
+    subst h
+    intro g hg
+    have hg' := (List.mem_filter.mp hg).1
+    refine buildGroups_ok src _ none [] res ?_ (by simp) hb g hg'
+    intro p hp
+    have := (List.of_mem_zip hp).1
+    rcases mergePureNumber_mem sp src gapOK ers nums p.1 this with h | h
+    · exact he _ h
+    · exact hn _ h
+
 /-! ### examples (hypotheses are satisfiable; the model computes) — blank = 32 -/
 
 /-- `7 kg`: suffix match `kg` at 2 → one result, the whole string, number at relative position 0. -/
